@@ -38,12 +38,15 @@ var c02mix = []weighted{
 func c02Chain(r *simrt.Rand, p *hx.Program) {
 	a := func() []int64 { return []int64{int64(r.Intn(12)), int64(r.Intn(12)), int64(r.Intn(90)), int64(r.Intn(12))} }
 	add := func(k string) { p.Ops = append(p.Ops, hx.Op{K: k, A: a()}) }
+	sleep := func(i int) { p.Ops = append(p.Ops, hx.Op{K: "sleep", A: []int64{int64(i)}}) }
 	pubs := func(n int) {
 		for i := 0; i < n; i++ {
 			add("pub")
+			if r.Pct(30) {
+				sleep(r.Intn(2)) // 20 or 200 ms: the next publish is appended (and replicated) on its own
+			}
 		}
 	}
-	sleep := func(i int) { p.Ops = append(p.Ops, hx.Op{K: "sleep", A: []int64{int64(i)}}) }
 	p.Ops = nil
 	pubs(1 + r.Intn(2))
 	add("sleep")
@@ -67,10 +70,19 @@ func c02Chain(r *simrt.Rand, p *hx.Program) {
 			if r.Pct(50) {
 				add("crashl")
 			}
+		case v < 45:
+			// a partitioned leader: cut off from the other servers it keeps accepting messages nobody
+			// replicates, is deposed without noticing, and learns about it when the partition heals (its
+			// log and leader-epoch history are not rebuilt by a restart in between)
+			add("isolate")
+			pubs(1 + r.Intn(2))
 		default:
 			if r.Pct(60) {
 				add("isolate") // the leader keeps accepting messages nobody replicates
 				pubs(1 + r.Intn(2))
+				if r.Pct(80) {
+					sleep(r.Intn(2)) // (time for the leader to append them before it dies)
+				}
 			}
 			if r.Pct(30) { // the leader dies inside a file operation of one of its next appends
 				p.Ops = append(p.Ops, hx.Op{K: "crashfs", A: []int64{0, 0, 0, int64(r.Intn(8))}})
@@ -94,12 +106,77 @@ func c02Chain(r *simrt.Rand, p *hx.Program) {
 	pubs(1)
 }
 
+// c02PingPong: two replicas (a third server only votes on metadata) take the leadership from each other
+// over and over: by partition, crash or stall of the leader, with or without an uncommitted tail on the
+// deposed leader, with empty epochs, with publishes appended one by one or in batches. Every log sees
+// every epoch boundary either by election or by replication, and reconciles against the other again and again.
+func c02PingPong(r *simrt.Rand, p *hx.Program) {
+	a := func() []int64 { return []int64{int64(r.Intn(12)), int64(r.Intn(12)), int64(r.Intn(90)), int64(r.Intn(12))} }
+	add := func(k string) { p.Ops = append(p.Ops, hx.Op{K: k, A: a()}) }
+	sleep := func(i int) { p.Ops = append(p.Ops, hx.Op{K: "sleep", A: []int64{int64(i)}}) }
+	pubs := func(n int) {
+		for i := 0; i < n; i++ {
+			add("pub")
+			if r.Pct(40) {
+				sleep(r.Intn(2))
+			}
+		}
+	}
+	p.Ops = nil
+	pubs(r.Intn(3))
+	sleep(2)
+	rounds := 3 + r.Intn(4)
+	for i := 0; i < rounds; i++ {
+		crashed := false
+		switch v := r.Intn(100); {
+		case v < 60:
+			add("isolate")
+			if r.Pct(50) {
+				pubs(1 + r.Intn(2)) // uncommitted tail on the partitioned leader
+			}
+		case v < 85:
+			if r.Pct(50) {
+				add("isolate")
+				pubs(1 + r.Intn(2))
+				sleep(r.Intn(2))
+			}
+			add("crashl")
+			crashed = true
+		default:
+			p.Ops = append(p.Ops, hx.Op{K: "stalll", A: []int64{int64(4 + r.Intn(8)), int64(r.Intn(12))}})
+			pubs(r.Intn(2))
+		}
+		sleep(3) // failover
+		pubs(r.Intn(3))
+		add("heal")
+		if crashed {
+			add("restartall")
+		}
+		sleep(3 + r.Intn(2)) // reconcile, catch up, rejoin the ISR
+	}
+	add("restartall")
+	pubs(1)
+}
+
 func genC02(r *simrt.Rand, tier string, idx int) *hx.Program {
 	p := clusterGen(r, tier, c02mix)
+	if r.Pct(12) {
+		p.P["nodes"], p.P["rf"], p.P["minisr"] = 3, 2, 1
+		p.P["drop"], p.P["delay"] = 0, 0
+		p.P["lag_ms"] = []int64{1000, 2500}[r.Intn(2)]
+		p.P["leader_timeout_ms"] = []int64{1500, 3000}[r.Intn(2)]
+		c02PingPong(r, p)
+		return p
+	}
 	if r.Pct(40) {
 		p.P["nodes"], p.P["rf"] = 3, 3
 		if r.Pct(35) {
 			p.P["rf"] = 2 // two replicas, the third server only votes on metadata: leadership ping-pong
+		}
+		if p.P["rf"] == 3 && r.Pct(20) {
+			// five servers, three of them replicas: the metadata quorum survives two replicas being away, so
+			// a replica can miss a whole epoch and come back under the leader after next
+			p.P["nodes"] = 5
 		}
 		p.P["minisr"] = int64(1 + r.Intn(2))
 		p.P["drop"], p.P["delay"] = 0, 0
